@@ -559,7 +559,11 @@ type genStream struct {
 
 // genVP8L builds one stream. Features are drawn from rng; desc names them.
 func genVP8L(rng *rand.Rand, maxW, maxH int) genStream {
-	w, h := 1+rng.Intn(maxW), 1+rng.Intn(maxH)
+	return genVP8LWH(rng, 1+rng.Intn(maxW), 1+rng.Intn(maxH))
+}
+
+// genVP8LWH builds one stream for a w x h picture.
+func genVP8LWH(rng *rand.Rand, w, h int) genStream {
 	bw := &bitW{}
 	bw.bits(0x2f, 8)
 	bw.bits(uint32(w-1), 14)
@@ -743,3 +747,6 @@ func genVP8LLongCopies(rng *rand.Rand) genStream {
 	writeImage(bw, rng, w, h, toks, 0, true, 0, func(int) int { return 0 }, 1, []string{"deep", "deep", "mid"})
 	return genStream{Bytes: bw.b, W: w, H: h, Desc: fmt.Sprintf("%dx%d long-copies deep-codes lead%d cache0 meta0 groups1", w, h, lead)}
 }
+
+// genVP8LFixed is genVP8L for given dimensions (used for ALPH payloads).
+func genVP8LFixed(rng *rand.Rand, w, h int) genStream { return genVP8LWH(rng, w, h) }
